@@ -116,6 +116,21 @@ Theorem C15_norm2_submultiplicative m k n ra rb rc (Ua Va Ub Vb Uc Vc : qmat RR)
   meq m n (@usv RR rc Uc sc Vc) (qmm k (@usv RR ra Ua sa Va) (@usv RR rb Ub sb Vb)) ->
   (sc 0%nat <= sa 0%nat * sb 0%nat)%R.
 Proof. exact (spectral_submultiplicative m k n ra rb rc Ua Va Ub Vb Uc Vc sa sb sc). Qed.
+(* the classical comparisons for the largest singular value of A = U diag(s) V^H itself: sigma_max^2 <= ||A||_1 ||A||_inf,
+   sigma_max <= ||A||_F, ||A||_F^2 <= r sigma_max^2 (r = number of values) *)
+Theorem C15_sigma_max_squared_le_norm1_norminf m n r (U V : qmat RR) (s : nat -> R) : 0 < r ->
+  meq r r (qmm m (qherm U) U) qmid -> meq r r (qmm n (qherm V) V) qmid -> (forall k, k < r -> (0 <= s k)%R) ->
+  (s 0%nat * s 0%nat <= norminf m n (@usv RR r U s V) * norm1 m n (@usv RR r U s V))%R.
+Proof. intros Hr HU HV H0. exact (top_value_sq_le_norm1_norminf m n r U V s Hr HU HV). Qed.
+Theorem C15_sigma_max_le_frobenius_le_sqrt_r_sigma_max m n r (U V : qmat RR) (s : nat -> R) : 0 < r ->
+  meq r r (qmm m (qherm U) U) qmid -> meq r r (qmm n (qherm V) V) qmid ->
+  (forall k, k < r -> (0 <= s k)%R) -> (forall k, k < r -> (s k <= s 0%nat)%R) ->
+  (s 0%nat <= normF m n (@usv RR r U s V))%R /\ (frob2 m n (@usv RR r U s V) <= @sumR RR r (fun _ => 1%R) * (s 0%nat * s 0%nat))%R.
+Proof.
+  intros Hr HU HV H0 Ht. split.
+  - exact (top_value_le_frobenius m n r U V s Hr HU HV H0).
+  - exact (frobenius_sq_le_r_top_value_sq m n r U V s HU HV H0 Ht).
+Qed.
 Open Scope R_scope.
 Print Assumptions C15_frobenius_is_definition.
 Print Assumptions C15_entry_points_agree.
@@ -128,3 +143,5 @@ Print Assumptions C15_norm2_squared_le_norm1_norminf.
 Print Assumptions C15_norm2_bounds_submultiplicative.
 Print Assumptions C15_largest_singular_value_is_operator_norm.
 Print Assumptions C15_norm2_triangle.
+Print Assumptions C15_sigma_max_squared_le_norm1_norminf.
+Print Assumptions C15_sigma_max_le_frobenius_le_sqrt_r_sigma_max.
